@@ -447,6 +447,8 @@ type c08server struct {
 	// (nil: no certificate at all), the later ones as d
 	failFirst int
 	firstKind *c08desc
+	// message phase (c08 phase): what is sent back after the honest router's identity, instead of the probe
+	seq []c08item
 }
 
 func c08startServer(w *c08world, d c08desc, tok string) (*c08server, error) {
@@ -533,7 +535,14 @@ func (s *c08server) serve(c *tls.Conn) {
 	if _, err := c08readFrame(c, 3*time.Second); err != nil {
 		return
 	}
-	if err := c08writeMsg(c, &C08Msg{Tok: s.tok}); err != nil {
+	s.mu.Lock()
+	seq := s.seq
+	s.mu.Unlock()
+	if seq != nil {
+		if err := c08writeItems(c, s.w, seq, s.tok); err != nil {
+			return
+		}
+	} else if err := c08writeMsg(c, &C08Msg{Tok: s.tok}); err != nil {
 		return
 	}
 	for {
